@@ -2,9 +2,12 @@
 
 Case = 2..3 downloads of an equally named file from different scripted uploaders through the real TransferManager:
 request / start offsets, file sizes, executor delay (slow disk), pre-existing files, bandwidth limit, a first attempt
-that breaks before its first byte, a change of settings.shares.download in between, and a user action (abort / pause /
-remove, optionally queue again) on the download that holds the path lock or on one that waits for it.  Oracle: no two
-active downloads share a local path at any sampled instant, COMPLETE files equal their source, completed downloads
+that breaks before its first byte, a change of settings.shares.download in between, a user action (abort / pause /
+remove, optionally queue again) on the download that holds the path lock or on one that waits for it, and optionally a
+keep-directory naming chain (default,keep,number / keep,default,number) with per-uploader remote directories: alias
+only, ordinary, named like the file (cannot be created once an equally named file is in the download root) or 300
+characters long (cannot be created).  Oracle: no two active downloads share a local path at any sampled instant, no
+active download has the local path of a finished / failed / paused one, COMPLETE files equal their source, completed downloads
 have distinct paths, every path lies in the directory configured when it was chosen, nothing appears outside the
 download directories, pre-existing files keep their content, no download is left INITIALIZING / DOWNLOADING without a
 task, no exception is lost in the loop.  Note: the arrival order of requests delivered in the same virtual instant
@@ -34,6 +37,13 @@ SWITCH_MS = [None, None, None, 5, 20, 50, 60, 90]
 # plus `iters` loop iterations the download `who` is aborted / paused / removed; optionally queued again later
 # (`who` is a role: 0 = the holder of the lock, 1 / 2 = first / last waiting download, see user_action)
 ACT_KINDS = ['abort', 'pause', 'remove']
+# naming chains configured on client.shares.naming_strategies (None = shipped configuration); only chains that end
+# with number-duplicates promise a fresh path.  RDIRS = the remote directory each uploader reports for the file:
+# the share alias only (keep-directory ignores it -> download root), an ordinary directory, a directory NAMED LIKE THE
+# FILE (collides with an equally named file in the download root: the directory cannot be created), a 300-character
+# directory (cannot be created either)
+CHAINS = {'dkn': ['default', 'keep', 'number'], 'kdn': ['keep', 'default', 'number']}
+RDIRS = ['alias-only', 'music', 'as-file', 'long']
 ACT_DELAYS_MS = [0, 0, 0.05, 0.3, 0.5, 1, 1.5, 3, 10, 19, 25]
 ACT_RESUME_MS = [None, None, 5, 30, 100, 300]
 
@@ -60,6 +70,8 @@ def conc_case(draw):
         'switch_ms': draw(st.sampled_from(SWITCH_MS)),
         'switch_rel': draw(st.booleans()),
         'rel0': draw(st.sampled_from([False, False, True])),
+        'chain': draw(st.sampled_from([None, None, None, 'dkn', 'dkn', 'kdn'])),
+        'rdirs': draw(st.none() | st.lists(st.sampled_from(RDIRS + ['alias-only', 'as-file']), min_size=n, max_size=n)),
         'act': draw(st.none() | st.fixed_dictionaries({
             'kind': st.sampled_from(ACT_KINDS), 'who': st.integers(0, 2), 'after_call': st.integers(0, 2),
             'delay_ms': st.sampled_from(ACT_DELAYS_MS), 'iters': st.integers(0, 3),
@@ -90,6 +102,21 @@ def enumerated():
                 yield {'t': 'conc', 'name': name, 'n': n, 'download_at': dl_at, 'start_at': [0] * n,
                        'sizes': [300] * n, 'exec_delay': 0.0, 'pre': 'none' if rel0 else 'file', 'limited': False,
                        'same_dir': True, 'switch_ms': sw, 'switch_rel': switch_rel, 'rel0': rel0}
+    # keep-directory chains: an equally named download lives in the download root (still active under the bandwidth
+    # limit, or finished, or a pre-existing file) when downloads arrive whose peer-named directory cannot be created
+    # (named like that file / 300 characters long) or can (ordinary directory)
+    for chain in ('dkn', 'kdn'):
+        for others in (['as-file', 'as-file'], ['as-file', 'long'], ['long', 'music'], ['as-file', 'alias-only']):
+            for limited in (True, False):
+                for pre in ('none', 'file'):
+                    for dl_at in ([0, 40, 60], [0, 100, 100]):
+                        yield {'t': 'conc', 'name': NAMES[0], 'n': 3, 'download_at': dl_at, 'start_at': [0, 0, 0],
+                               'sizes': [20000, 9000, 9000], 'exec_delay': 0.0, 'pre': pre, 'limited': limited,
+                               'same_dir': True, 'chain': chain, 'rdirs': ['alias-only'] + others}
+        # the download whose directory is named like the file comes first (the directory gets created)
+        yield {'t': 'conc', 'name': NAMES[0], 'n': 3, 'download_at': [0, 40, 60], 'start_at': [0, 0, 0],
+               'sizes': [9000, 9000, 9000], 'exec_delay': 0.0, 'pre': 'none', 'limited': True, 'same_dir': True,
+               'chain': chain, 'rdirs': ['as-file', 'alias-only', 'as-file']}
     # three equally named downloads starting together on a slow disk; while one of them holds the path lock
     # (path chosen, placeholder not created yet) the holder or one of the waiting downloads is aborted / paused /
     # removed, optionally resumed later; a further download arrives (already waiting or 3 / 30 ms later)
@@ -128,6 +155,10 @@ def run_conc_case(case, res: CaseResult):
     pre = case.get('pre') if case.get('pre') in ('none', 'file', 'file+1') else 'none'
     limited = bool(case.get('limited'))
     same_dir = bool(case.get('same_dir', True))
+    chain = case.get('chain') if case.get('chain') in CHAINS else None
+    rdirs = case.get('rdirs') if isinstance(case.get('rdirs'), list) else None
+    if rdirs is not None:
+        rdirs = [r if r in RDIRS else 'music' for r in (rdirs + ['music'] * 3)[:n]]
     first_fault = case.get('first_fault') if case.get('first_fault') in ('reset0', 'eof0') else 'none'
     retry_s = _num(case.get('retry_ms', 150), 20, 1000, 150) / 1000.0
     switch_s = None if case.get('switch_ms') is None else _num(case.get('switch_ms'), 0, 200, 50) / 1000.0
@@ -168,6 +199,10 @@ def run_conc_case(case, res: CaseResult):
             for i in range(n):
                 rdir = 'music' if same_dir else 'music%d' % i
                 path = '@@abc\\%s\\%s' % (rdir, name)
+                if rdirs is not None:
+                    path = {'alias-only': '@@abcde\\%s' % name, 'music': path,
+                            'as-file': 'stuff\\%s\\%s' % (name, name),
+                            'long': '@@abc\\%s\\%s' % ('L' * 300, name)}[rdirs[i]]
                 up = xfer.ScriptedUploader(world, 'user%d' % i, {path: xfer.content(100 + i, sizes[i])})
                 up.start_delay = 0.01 + st_at[i]
                 # distinct tickets per uploader: the library keys the expected file connection by the peer-chosen
@@ -188,8 +223,13 @@ def run_conc_case(case, res: CaseResult):
                     return {'fault': 'reset' if first_fault == 'reset0' else 'eof', 'k': 0}
                 up0.plan = plan0
             client = await world.start_client(s)
-            # observation only: which directory is configured at the moment a local path is chosen
             shares = client.shares
+            if chain is not None:                  # documented way to configure the naming (USAGE.rst)
+                from aioslsk import naming
+                table = {'default': naming.DefaultNamingStrategy, 'keep': naming.KeepDirectoryStrategy,
+                         'number': naming.NumberDuplicateStrategy}
+                shares.naming_strategies = [table[c]() for c in CHAINS[chain]]
+            # observation only: which directory is configured at the moment a local path is chosen
             real_calculate = shares.calculate_download_path
 
             async def user_action():
@@ -288,6 +328,12 @@ def run_conc_case(case, res: CaseResult):
                 paths = [t.local_path for t in active]
                 if len(set(paths)) < len(paths):
                     shared.append((round(loop.time(), 4), sorted(paths)))
+                # an active download writing to the file of a download that is not active (finished, failed, paused)
+                for t in active:
+                    for j, o in enumerate(transfers):
+                        if o is not t and o not in active and o.local_path == t.local_path and \
+                                not (out.get('acting') and j == out.get('who')) and 'shared_inactive' not in out:
+                            out['shared_inactive'] = (round(loop.time(), 4), t.local_path, o.state.VALUE.name)
                 t0_ = transfers[0]
                 if first_fault == 'eof0' and t0_.state.VALUE.name == 'FAILED' and t0_.fail_reason is not None \
                         and not out.get('requeued'):
@@ -335,6 +381,9 @@ def run_conc_case(case, res: CaseResult):
         if out.get('shared'):
             res.violate(kind_for('C09/concurrent-downloads-share-local-path', out['shared'][0][1]),
                         f'{out["shared"][0]} final={final} action={act}')
+        if out.get('shared_inactive') and not out.get('shared'):
+            res.violate(kind_for('C09/active-download-shares-local-path-of-inactive-download',
+                                 [out['shared_inactive'][1]]), f'{out["shared_inactive"]} final={final} action={act}')
         if out.get('stuck'):
             res.violate('C09/download-stuck-without-task', f'{out["stuck"]} final={final} action={act}')
         complete_paths = [p for s_, p in final if s_ == 'COMPLETE']
@@ -345,10 +394,15 @@ def run_conc_case(case, res: CaseResult):
         for configured, p in chosen:
             configured_for[p] = configured         # the last calculation that produced p
         seen_dirs = []
+
+        def dir_ok(path, directory):
+            # shipped configuration: directly in the download directory; keep-directory chains: strictly inside it
+            d, r = os.path.realpath(os.path.dirname(path)), os.path.realpath(directory)
+            return d == r or (chain is not None and d.startswith(r + os.sep))
         for configured, p in chosen:
             # judged at the moment the path is chosen, against the directory configured at that moment
-            if os.path.realpath(os.path.dirname(p)) != os.path.realpath(configured):
-                if os.path.realpath(os.path.dirname(p)) in [os.path.realpath(d) for d in seen_dirs if d != configured]:
+            if not dir_ok(p, configured):
+                if any(dir_ok(p, d) for d in seen_dirs if d != configured):
                     res.violate('C09/previously-configured-download-directory-used:transfer',
                                 f'path {p!r} chosen while {configured!r} was configured '
                                 f'(setting changed at {out.get("switched_at")}); final={final}')
@@ -357,9 +411,7 @@ def run_conc_case(case, res: CaseResult):
             if configured not in seen_dirs:
                 seen_dirs.append(configured)
         for i, (s_, p) in enumerate(final):
-            expected_dir = configured_for.get(p, dl)
-            if p and p not in configured_for and \
-                    os.path.realpath(p) != os.path.realpath(os.path.join(expected_dir, os.path.basename(p))):
+            if p and p not in configured_for and not (dir_ok(p, dl) or (switch_s is not None and dir_ok(p, dl2))):
                 res.violate('C09/local-path-not-directly-in-download-directory', str(p))
             if s_ == 'COMPLETE' and out['files'][i] is False and not out.get('shared'):
                 res.violate(kind_for('C09/complete-file-differs-from-source:concurrent', [p]),
@@ -377,7 +429,15 @@ def run_conc_case(case, res: CaseResult):
         same_instant = len(set(round(a + b, 6) for a, b in zip(dl_at, st_at))) < n
         res.nontrivial = True
         res.key = ['conc', name, n, dl_at, st_at, sizes, exec_delay, pre, limited, same_dir, first_fault, retry_s,
-                   switch_s, switch_rel, rel0, act]
+                   switch_s, switch_rel, rel0, act, chain, rdirs]
+        if chain is not None:
+            res.label('conc:chain:' + chain)
+        for r in sorted(set(rdirs or [])):
+            res.label('conc:rdir:' + r)
+        if chain is not None and rdirs and any(r in ('as-file', 'long') for r in rdirs):
+            res.label('conc:keep-directory-with-uncreatable-directory')
+            if any(s_ == 'FAILED' and p is None for s_, p in final):
+                res.label('conc:download-failed-without-local-path')
         if act is not None and 'act_on' in out:
             state, has_path = out['act_on']
             res.label('conc:action:' + act['kind'], 'conc:action-on:%s:%s' % (state, 'path-chosen' if has_path else 'no-path'))
